@@ -79,7 +79,7 @@ UNIT = {
          'decreases': 'self.entries@.len() - __i'}}},
 
   # ---- XRefTable::add_entries_from (C02) ----
-  'XRefTable::add_entries_from': {'kind': 'fn', 'file': X, 'container': TAB, 'name': 'add_entries_from', 'props': ['C02', 'C01'],
+  'XRefTable::add_entries_from': {'kind': 'fn', 'file': X, 'container': TAB, 'name': 'add_entries_from', 'props': ['C02', 'C01', 'C18'],
      'requires': [
         # both section readers (parse_xref_table_and_trailer: add_free_entry/add_inuse_entry;
         # parse_xref_section_from_stream: types 0, 1, 2) produce only Free | Raw | Stream
